@@ -166,7 +166,11 @@ fn expectations(cx: &Ctx) -> (ExpMap, ObsMap, Vec<Violation>, Cover) {
             let e = exp.entry((op, reg.inst, Key::Desp(d.ent))).or_insert((0, 0, d.pos));
             e.1 += 1;
             let revoked = matches!(reg.end, Some((p, EndWhy::Revoked)) if p < tight);
-            if reg.certain && !revoked && a.alive_at_poll_end(op, reg.inst) {
+            // A scheduled despawn reaction owns a handle of a ref-counted reactor: such a reactor cannot legitimately be
+            // gone before it has run the reaction, so the run is owed even if the reactor no longer exists when the
+            // tree ends (C07h: collected while the reaction was pending). One-off reactors go after their first run.
+            let kept_by_reaction = a.insts[reg.inst].kind == SysKindTag::Reactor && a.is_refcounted(reg.inst) && a.insts[reg.inst].explicit_despawn.is_none();
+            if reg.certain && !revoked && (a.alive_at_poll_end(op, reg.inst) || kept_by_reaction) {
                 e.0 += 1;
             }
         }
